@@ -583,6 +583,24 @@ fn c04_stream_bounds_short_final_block() {
 }
 
 //@ prop: C04
+//@ also: C02
+//@ features: nopar
+//@ drives: coding::encode_with_fixed_block_size on an input SHORTER than one block (the single frame is both first and final)
+//@ bound: a mono 16-bit input of 5 samples with block size 32
+//@ asserts: as c04_stream_bounds_short_final_block (in particular: maximum block size == requested 32, minimum block size >= 16 although the only frame holds 5 samples)
+//@ stubs: as c04_stream_bounds_short_final_block
+//@ cover: none
+//@ oracle: c04_oracle_short_final_block
+#[kani::proof]
+#[kani::unwind(66)]
+#[kani::stub(alloc::fmt::format, fmt_stub)]
+#[kani::stub(md5::compress::soft::compress_block, md5_noop_stub)]
+#[kani::stub(super::encode_fixed_size_frame, encode_fixed_size_frame_stub)]
+fn c04_stream_bounds_shorter_than_one_block() {
+    let _c = stream_bounds_case::<5, 32>();
+}
+
+//@ prop: C04
 //@ tier: thorough
 //@ features: nopar
 //@ drives: coding::encode_with_fixed_block_size
@@ -731,12 +749,23 @@ fn residual_assembly_case<const B: usize, const ORDER: usize, const NP: usize>()
 
 //@ prop: C01
 //@ drives: coding::encode_residual_with_prc_parameter, coding::encode_residual_partition, coding::quotients_and_remainders, Residual::from_parts, Residual::residual
-//@ bound: block 8 with 1 or 2 partitions, warm-up 0..=2, every Rice parameter 0..=14 per partition, every error value with |e| < 2^30
+//@ bound: block 8 in 1 partition, warm-up 0..=2, every Rice parameter 0..=14, every error value with |e| < 2^30
 //@ asserts: the assembled residual reproduces every error value at and after the warm-up (Residual::residual(t) == errors[t]) and is zero-padded before; it satisfies the well-formedness predicate (c18/c08)
 #[kani::proof]
 #[kani::unwind(70)]
-fn c01_residual_assembly() {
-    let c = if kani::any() { residual_assembly_case::<8, 0, 1>() } else { residual_assembly_case::<8, 1, 2>() };
+fn c01_residual_assembly_one_partition() {
+    let c = residual_assembly_case::<8, 0, 1>();
+    kani::cover!(c);
+}
+
+//@ prop: C01
+//@ drives: coding::encode_residual_with_prc_parameter, coding::encode_residual_partition, coding::quotients_and_remainders, Residual::from_parts, Residual::residual
+//@ bound: block 8 in 2 partitions, warm-up 0..=2, every Rice parameter 0..=14 per partition, every error value with |e| < 2^30
+//@ asserts: as c01_residual_assembly_one_partition
+#[kani::proof]
+#[kani::unwind(70)]
+fn c01_residual_assembly_two_partitions() {
+    let c = residual_assembly_case::<8, 1, 2>();
     kani::cover!(c);
 }
 
